@@ -346,15 +346,22 @@ def render_rule(rule, lang="en", alias=None, layout=None):
     return _result(out, exp, layout)
 
 
-def render_tags(taglines, comments=()):
-    """taglines: [[tag, ..], ..]; comments: indexes of lines that get a trailing comment -> (text, expected names)"""
+def render_tags(taglines, comments=(), fillers=None, indent=u""):
+    """Text for parse_tags.  taglines: [[tag, ..], ..]; comments: indexes of tag lines that get a trailing
+    comment; fillers: {position: [blank / comment-only lines]} put BEFORE tag line number `position`
+    (len(taglines) = after the last one).  -> (text, expected [{"kind": "tag", "name", "line"}])"""
+    fillers = fillers or {}
     lines = []
+    exp = []
     for i, g in enumerate(taglines):
-        t = u" ".join(u"@" + x for x in g)
+        lines.extend(fillers.get(i, ()))
+        t = indent + u" ".join(u"@" + x for x in g)
         if i in comments:
-            t += u"  # trailing comment"
+            t += u"  # trailing comment @notatag"
         lines.append(t)
-    return u"\n".join(lines), [x for g in taglines for x in g]
+        exp.extend({"kind": "tag", "name": x, "line": len(lines)} for x in g)
+    lines.extend(fillers.get(len(taglines), ()))
+    return u"\n".join(lines), exp
 
 
 # ---------------------------------------------------------------- extraction from the real model
